@@ -17,10 +17,14 @@ type ExcludesResult = ignorefiles.ExcludesResult
 type VerifRule = ignorefiles.VerifRule
 type UnpackInfo = unpackinfo.UnpackInfo
 
-func ParseIgnoreFileContent(r io.Reader) (*Ruleset, error) { return ignorefiles.ParseIgnoreFileContent(r) }
-func LoadPackageIgnoreRules(dir string) (*Ruleset, error)   { return ignorefiles.LoadPackageIgnoreRules(dir) }
-func DefaultRuleset() *Ruleset                             { return ignorefiles.DefaultRuleset }
-func DefaultFlags() []bool                                 { return ignorefiles.VerifDefaultFlags() }
+func ParseIgnoreFileContent(r io.Reader) (*Ruleset, error) {
+	return ignorefiles.ParseIgnoreFileContent(r)
+}
+func LoadPackageIgnoreRules(dir string) (*Ruleset, error) {
+	return ignorefiles.LoadPackageIgnoreRules(dir)
+}
+func DefaultRuleset() *Ruleset { return ignorefiles.DefaultRuleset }
+func DefaultFlags() []bool     { return ignorefiles.VerifDefaultFlags() }
 func NewUnpackInfo(dst string, h *tar.Header) (UnpackInfo, error) {
 	return unpackinfo.NewUnpackInfo(dst, h)
 }
